@@ -233,7 +233,8 @@ class Hist(object):
             if op == 'deld': return 'deld\t%s\t%d\t%d' % (I(n), off(b), cnt(c)), w.deleteData(n, off(b), cnt(c))
             if op == 'repd': return 'repd\t%s\t%d\t%d\t%s' % (I(n), off(b), cnt(c), esc(s)), w.replaceData(n, off(b), cnt(c), s)
             if op == 'subd':
-                self.excl_check('C13-substringData-count-overflow', off(b) <= ln and cnt(c) > ln)
+                # known finding: newString[count] = 0 is written without clamping count (stack buffer of 4096 units, or a heap buffer of len+1)
+                self.excl_check('C13-substringData-count-overflow', off(b) <= ln and ((ln < 4095 and cnt(c) >= 4096) or (ln >= 4095 and cnt(c) > ln)))
                 return 'subd\t%s\t%d\t%d' % (I(n), off(b), cnt(c)), w.substringData(n, off(b), cnt(c))
         if op in ('setv', 'getv'):
             sel, idx = a % 4, a // 4
@@ -247,6 +248,7 @@ class Hist(object):
             n = self.of_type((TX, CD), a)
             if n is None: return None
             o = b % (len(n.value) + 2)
+            self.split_pre(n, o)
             return 'split\t%s\t%d' % (I(n), o), self.split_hook(n, o, w.splitText(n, o))
         if op == 'norm':
             sel, idx = a % 4, a // 4
@@ -280,7 +282,17 @@ class Hist(object):
         return None
     def removal_hook(self, kind, p, c, ref): pass
     def text_hook(self, op, n, off, cnt): pass
+    def split_pre(self, n, off):
+        if n.readonly or off > len(n.value): return
+        for r in self.views('R'):
+            if r.detached: continue
+            inside = (r.sc is n and r.so > off) or (r.ec is n and r.eo > off)
+            # known finding: the new node of a parentless Text becomes a range container although it is in no tree with the other boundary
+            self.excl_check('C14-range-splitText-detached', n.parent is None and inside)
+            # known finding: the start moves into the new node but an end directly behind the split node stays in front of it
+            self.excl_check('C14-range-splitText-start-after-end', n.parent is not None and r.sc is n and r.so > off and r.ec is n.parent and r.eo == dm.index_of(n) + 1)
     def split_hook(self, n, off, res): return res
+    def split_pre(self, n, off): pass
     def norm_hook(self, n, res): return res
 
     def taint_check(self, p, nc, ref, replacing):
@@ -545,6 +557,15 @@ class ViewHist(Hist):
         for r in self.views('R'):
             if r.detached or r.sc is not n: continue
             if (op == 'insd' and r.so > off) or (op == 'repd' and r.so > off + cnt): raise Excluded('C14-range-start-clamped-on-text-insert')
+    def split_pre(self, n, off):
+        if n.readonly or off > len(n.value): return
+        for r in self.views('R'):
+            if r.detached: continue
+            inside = (r.sc is n and r.so > off) or (r.ec is n and r.eo > off)
+            # known finding: the new node of a parentless Text becomes a range container although it is in no tree with the other boundary
+            self.excl_check('C14-range-splitText-detached', n.parent is None and inside)
+            # known finding: the start moves into the new node but an end directly behind the split node stays in front of it
+            self.excl_check('C14-range-splitText-start-after-end', n.parent is not None and r.sc is n and r.so > off and r.ec is n.parent and r.eo == dm.index_of(n) + 1)
     def split_hook(self, n, off, res):
         if not res.is_err() and any((not r.detached) and ((r.sc is n and r.so > off) or (r.ec is n and r.eo > off)) for r in self.views('R')):
             res.unspec = res.unspec or 'splitText with a range boundary behind the split offset (DOM2 Range gives no rule; DOM4 moves it to the new node)'
